@@ -8,8 +8,9 @@ interface calls available for referenced nodes.  Part 2: meta-theorems (fuel).
 -/
 import CamVerif.Proofs.GenApiLemmas
 import CamVerif.Proofs.C03Fuel
+import CamVerif.Proofs.C03Spec
 namespace CamVerif.C03
-open CamVerif CamVerif.GenApi
+open CamVerif CamVerif.GenApi CamVerif.GenApiSem
 
 variable {F E : Type}
 
@@ -640,6 +641,94 @@ theorem fuel_irrelevant (cx : Ctx F E) (f1 f2 : Nat) (req : Req F) (st : St F)
   · obtain ⟨k, rfl⟩ := Nat.exists_eq_add_of_le h
     exact fuel_mono cx f2 k req st h2
 
+private theorem runR_fst {α : Type} (m : R F α) (f : α → Val F) (st : St F) :
+    (runR m f st).1 =
+      match R.val m st.s with
+      | .ok a => .ok (f a)
+      | .err e => .err e
+      | .panic => .panic := by
+  unfold runR R.val
+  cases m st.s with
+  | mk r l => cases r <;> rfl
+
+private theorem read_iff {α : Type} {m : R F α} {f : α → Val F} {spec : Option α} (st : St F) (v : α)
+    (hinj : ∀ a b, f a = f b → a = b)
+    (h1 : ∀ a, R.val m st.s = .ok a → spec = some a) (h2 : ∀ a, spec = some a → R.val m st.s = .ok a) :
+    (runR m f st).1 = .ok (f v) ↔ spec = some v := by
+  rw [runR_fst]
+  cases hm : R.val m st.s with
+  | ok a =>
+    have := h1 a hm
+    simp only [Res.ok.injEq, this, Option.some.injEq]
+    exact ⟨fun h => hinj _ _ h, fun h => by rw [h]⟩
+  | err e =>
+    simp only [reduceCtorEq, false_iff]
+    intro hs; rw [h2 v hs] at hm; cases hm
+  | panic =>
+    simp only [reduceCtorEq, false_iff]
+    intro hs; rw [h2 v hs] at hm; cases hm
+
+/-- **refines_spec_partial**: on graphs without converter / swiss-knife nodes, a value read
+of any node (Integer, IntReg, MaskedIntReg, Float, FloatReg, String, StringReg,
+Enumeration: current value and current entry, Boolean; register address and length)
+succeeds with `v` exactly when the independent clause-per-rule reference semantics
+`GenApiSem.valSem` assigns `v` — for every such graph, state, profile and depth. -/
+theorem refines_spec_partial (cx : Ctx F E) (hnf : NoFormulaNodes cx) (fuel : Nat) (n : NodeId) (st : St F) :
+    (∀ v, (exec cx (fuel + 1) (.intValue n) st).1 = .ok (.int v) ↔ (valSem cx (fuel + 1)).int n st.s = some v) ∧
+    (∀ v, (exec cx (fuel + 1) (.floatValue n) st).1 = .ok (.float v) ↔ (valSem cx (fuel + 1)).float n st.s = some v) ∧
+    (∀ v, (exec cx (fuel + 1) (.strValue n) st).1 = .ok (.str v) ↔ (valSem cx (fuel + 1)).str n st.s = some v) ∧
+    (∀ v, (exec cx (fuel + 1) (.enumCurrentValue n) st).1 = .ok (.int v) ↔ (valSem cx (fuel + 1)).enum n st.s = some v) ∧
+    (∀ b, (exec cx (fuel + 1) (.boolValue n) st).1 = .ok (.bool b) ↔ specBool cx fuel n st.s = some b) ∧
+    (∀ e, (exec cx (fuel + 1) (.enumCurrentEntry n) st).1 = .ok (.node e) ↔ specCurrentEntry cx fuel n st.s = some e) ∧
+    (∀ a, (exec cx (fuel + 1) (.regAddress n) st).1 = .ok (.int a) ↔ specRegAddress cx fuel n st.s = some a) ∧
+    (∀ l, (exec cx (fuel + 1) (.regLength n) st).1 = .ok (.int l) ↔ specRegLength cx fuel n st.s = some l) := by
+  have ihB := valIH cx hnf fuel
+  have ihA := specIH cx fuel
+  refine ⟨fun v => ?_, fun v => ?_, fun v => ?_, fun v => ?_, fun b => ?_, fun e => ?_, fun a => ?_, fun l => ?_⟩ <;>
+    simp only [exec, top]
+  · exact read_iff st v (fun a b h => by injection h) (fun a h => intValueF_spec ihB hnf h) (fun a h => intValueF_exec ihA h)
+  · exact read_iff st v (fun a b h => by injection h) (fun a h => floatValueF_spec ihB hnf h) (fun a h => floatValueF_exec ihA h)
+  · exact read_iff st v (fun a b h => by injection h) (fun a h => strValueF_spec ihB h) (fun a h => strValueF_exec ihA h)
+  · exact read_iff st v (fun a b h => by injection h) (fun a h => enumCurrentValueF_spec ihB h) (fun a h => enumCurrentValueF_exec ihA h)
+  · exact read_iff st b (fun a b h => by injection h) (fun a h => (boolValueF_iff cx hnf fuel n st.s a).mp h)
+      (fun a h => (boolValueF_iff cx hnf fuel n st.s a).mpr h)
+  · exact read_iff st e (fun a b h => by injection h) (fun a h => (enumCurrentEntryF_iff cx hnf fuel n st.s a).mp h)
+      (fun a h => (enumCurrentEntryF_iff cx hnf fuel n st.s a).mpr h)
+  · exact read_iff st a (fun a b h => by injection h) (fun x h => (regAddressF_iff cx hnf fuel n st.s x).mp h)
+      (fun x h => (regAddressF_iff cx hnf fuel n st.s x).mpr h)
+  · exact read_iff st l (fun a b h => by injection h) (fun x h => (regLengthF_iff cx hnf fuel n st.s x).mp h)
+      (fun x h => (regLengthF_iff cx hnf fuel n st.s x).mpr h)
+
+/-- Without any restriction on the graph: wherever the reference semantics assigns a
+value, the interpreter returns exactly it (formula nodes simply have no reference value). -/
+theorem spec_values_returned (cx : Ctx F E) (fuel : Nat) (n : NodeId) (st : St F) :
+    (∀ v, (valSem cx (fuel + 1)).int n st.s = some v → (exec cx (fuel + 1) (.intValue n) st).1 = .ok (.int v)) ∧
+    (∀ v, (valSem cx (fuel + 1)).float n st.s = some v → (exec cx (fuel + 1) (.floatValue n) st).1 = .ok (.float v)) ∧
+    (∀ v, (valSem cx (fuel + 1)).str n st.s = some v → (exec cx (fuel + 1) (.strValue n) st).1 = .ok (.str v)) ∧
+    (∀ v, (valSem cx (fuel + 1)).enum n st.s = some v → (exec cx (fuel + 1) (.enumCurrentValue n) st).1 = .ok (.int v)) := by
+  have ihA := specIH cx fuel
+  refine ⟨fun v h => ?_, fun v h => ?_, fun v h => ?_, fun v h => ?_⟩ <;> simp only [exec, top, runR_fst]
+  · rw [intValueF_exec ihA h]
+  · rw [floatValueF_exec ihA h]
+  · rw [strValueF_exec ihA h]
+  · rw [enumCurrentValueF_exec ihA h]
+
+/-- Reads never change value store or device image (they only append to the access log):
+the frame half of "final device memory equals that of the reference". -/
+theorem reads_preserve_state (cx : Ctx F E) (fuel : Nat) (n : NodeId) (len : Nat) (st : St F) :
+    ∀ req ∈ [Req.intValue n, .intMin n, .intMax n, .intInc n, .floatValue n, .floatMin n, .floatMax n,
+              .floatInc n, .strValue n, .strMaxLength n, .boolValue n, .enumCurrentValue n,
+              .enumCurrentEntry n, .enumEntries n, .cmdIsDone n, .regRead n len, .regAddress n,
+              .regLength n, .isReadable n, .isWritable n, .isImplemented n, .isAvailable n, .isLocked n],
+      (exec cx fuel req st).2.vs = st.vs ∧ (exec cx fuel req st).2.dev = st.dev := by
+  intro req hreq
+  cases fuel with
+  | zero => simp [exec]
+  | succ f =>
+    simp only [List.mem_cons, List.not_mem_nil, or_false] at hreq
+    rcases hreq with h | h | h | h | h | h | h | h | h | h | h | h | h | h | h | h | h | h | h | h | h | h | h <;>
+      subst h <;> simp only [exec, top, runR] <;> constructor <;> split <;> rfl
+
 /-! ## Non-vacuity: concrete graph, states and histories exercising the clauses -/
 
 namespace Ex
@@ -711,6 +800,13 @@ after execute (register holds the command value) -/
 example : (exec Ex.cx 4 (.boolValue 10) Ex.st).1 = .err .invalidNode ∧
     (exec Ex.cx 4 (.cmdIsDone 11) (exec Ex.cx 4 (.cmdExecute 11) Ex.st).2).1 = .ok (.bool false) := by
   constructor <;> rfl
+/-- the reference semantics assigns 7 to node 6 (selector 1 ↦ register 3 ↦ device byte 7) -/
+example : (valSem Ex.cx 4).int 6 Ex.st.s = some 7 := by rfl
+/-- the example graph is inside the scope of `refines_spec_partial` -/
+example : NoFormulaNodes Ex.cx := fun n =>
+  match n with
+  | 0 | 1 | 2 | 3 | 4 | 5 | 6 | 7 | 8 | 9 | 10 | 11 => trivial
+  | _ + 12 => trivial
 /-- the hypothesis of `fuel_mono` holds with fuel 4, and fails with fuel 1 -/
 example : (exec Ex.cx 4 (.intSet 5 9) Ex.st).1 ≠ .err .outOfFuel ∧
     (exec Ex.cx 1 (.intSet 5 9) Ex.st).1 = .err .outOfFuel := by
